@@ -520,6 +520,9 @@ CallersClosure(S) == LET T == S \cup UNION {callers[k] : k \in S} IN IF T = S TH
 
 EvictApply ==             \* under dirty.Lock(): delete the closure over callers, then cleanup()
   /\ ev.pc = "lock" /\ readers = 0 /\ ~writer
+  \* a concurrent Evict is explored in the linearization Run-then-Evict only (the other one is the
+  \* sequential history Evict; Run): its getTask loop may run at any time, dirty.Lock() succeeds after the Run
+  /\ ev.conc => RunsDone
   /\ LET coll == IF "F4" \in Fix THEN ev.keys \cap tasks ELSE ev.coll
          C == CallersClosure(coll) IN
      /\ tasks' = tasks \ C
